@@ -61,7 +61,7 @@ type HistInput struct {
 	// bits set on EVERY query event of the history (the session's settings)
 	QVars  []ref.StatusVar `json:"q_vars,omitempty"`
 	QFlags uint16          `json:"q_flags,omitempty"`
-	Global       *ref.Cfg  `json:"global,omitempty"`
+	Global *ref.Cfg        `json:"global,omitempty"`
 }
 
 // UnclassifiedStatements are statements a server logs as query events whose
@@ -185,6 +185,9 @@ func checkGrouping(in HistInput) (string, int, int) {
 	// what was delivered must stay what it was: re-read every transaction
 	// after the stream has ended (a buffer reused by the parser would show here)
 	for i, d := range out.Deliveries {
+		if d.Tx == nil {
+			continue // the handler wiped what it got
+		}
 		if diff := d.Snap.Diff(hx.Snapshot(d.Tx)); diff != "" {
 			return fmt.Sprintf("delivery %d changed after it was delivered (re-read after the stream ended): %s", i, diff), len(served), len(exp)
 		}
@@ -250,6 +253,9 @@ func checkRejectRetry(in HistInput, h *ref.History, start ref.Position, exp []re
 		return fmt.Sprintf("handler rejected delivery %d, second attempt on the same Streamer (expected deliveries 0..%d, then %d..%d again): %s", k, k, k, len(exp)-1, d)
 	}
 	for i, d := range out.Deliveries {
+		if d.Tx == nil {
+			continue // the handler wiped what it got
+		}
 		if diff := d.Snap.Diff(hx.Snapshot(d.Tx)); diff != "" {
 			return fmt.Sprintf("delivery %d changed after it was delivered (re-read after both attempts): %s", i, diff)
 		}
@@ -321,6 +327,8 @@ func replayHist(kind string, input json.RawMessage) (bool, string) {
 		return ReplayScale(input)
 	case "nest":
 		return ReplayNest(input)
+	case "partial":
+		return ReplayPartial(input)
 	case "headerbytes":
 		return ReplayHeaderBytes(input)
 	case "unktype":
@@ -568,6 +576,18 @@ func runC02(r *chk.Run) {
 					in := HistInput{Units: units, Cfg: cfg, LockStep: true}
 					placeBases(&in, "wrap32")
 					hr.add(in)
+				}
+			}
+			if len(seq) > 0 {
+				// a handler that owns what it gets (overwrites every field, positions included)
+				hr.add(HistInput{Units: units, Cfg: cfgA, LockStep: true, Wipe: true})
+				for k := 1; k <= len(seq); k++ {
+					hr.add(HistInput{Units: units, Cfg: cfgA, LockStep: true, Wipe: true, RejectAt: k})
+				}
+				if len(seq) <= 2 {
+					for k := 3; k <= 12; k++ {
+						hr.add(HistInput{Units: units, Cfg: cfgA, LockStep: true, Wipe: true, CutAt: k + 1})
+					}
 				}
 			}
 			// the handler rejects delivery k, the same Streamer streams again
